@@ -46,17 +46,23 @@ def explain_batch(drv, casedir, cases):
         name = f"TmpExplain{k}"
         src = ("From Coq Require Import List NArith ZArith Bool.\nFrom YV Require Import Cond.Syntax Cond.Sem Cond.RuleSet Cond.Check.\n"
                "Import ListNotations.\nOpen Scope Z_scope.\nDefinition cs := [\n" + ";\n".join("(" + c["coq"] + ")" for c in chunk) +
-               "\n].\nEval vm_compute in (map explain cs).\n")
+               "\n].\nEval vm_compute in (map explain cs).\n"
+               "Eval vm_compute in (map (fun c => eval_ruleset (c_data c) (c_globals c) (c_rules c)) cs).\n")
         p = os.path.join(casedir, name + ".v")
         open(p, "w").write(src)
         rc, out, _ = drv.sh(["coqc", "-noglob", "-Q", drv.COQ, "YV", name + ".v"], cwd=casedir, timeout=600)
         for f in os.listdir(casedir):
             if f.startswith(name) or f.startswith("." + name): os.remove(os.path.join(casedir, f))
-        codes = [int(x) for x in re.findall(r"(\d+)%N", out)] if rc == 0 else []
-        if len(codes) != len(chunk):
-            codes = [int(x) for x in re.findall(r"\b(\d+)\b", out.split("=", 1)[1].split(":")[0])] if rc == 0 and "=" in out else []
+        flat = out.replace("\n", " ")
+        first = flat.split(": list N", 1)[0] if ": list N" in flat else ""
+        codes = [int(x) for x in re.findall(r"\b(\d+)(?:%N)?\b", first.split("=", 1)[1])] if rc == 0 and "=" in first else []
+        second = flat.split(": list N", 1)[1] if ": list N" in flat else ""
+        exp = re.findall(r"\(\s*\[(.*?)\],\s*\[(.*?)\]\s*\)", second)
         for i, c in enumerate(chunk):
-            c["explain"] = codes[i] if i < len(codes) else 255
+            c["explain"] = codes[i] if len(codes) == len(chunk) else 255
+            if len(exp) == len(chunk):
+                c["expected_all_by_documented_meaning"] = [int(x) for x in re.findall(r"(\d+)", exp[i][0])]
+                c["expected_pub_by_documented_meaning"] = [int(x) for x in re.findall(r"(\d+)", exp[i][1])]
 
 
 def classify(case):
@@ -68,7 +74,7 @@ def classify(case):
 
 
 def run_k(run, tier, seed, drv):
-    n = 700 if tier == "quick" else 24000
+    n = 700 if tier == "quick" else 20000
     depth = 4 if tier == "quick" else 5
     casedir = os.path.join(drv.CACHE, "cases", "C02")
     os.makedirs(casedir, exist_ok=True)
